@@ -138,6 +138,15 @@ def run(ctx):
         recs = gen.family(rng, kind, nseq, rng.choice([6, 30, 90, 200]), sub=0.15, indel=0.06)
         names = gen.name_pool(rng, nseq, maxlen=12, charset="abcdefghijklmnopqrstuvwxyzABCDEFGHIJKLMNOPQRSTUVWXYZ0123456789_")
         recs = [(n, s) for n, (_, s) in zip(names, recs)]
+        if i % 5 == 3:
+            # a record named like a format signature whose residues continue it ("CLUSTAL" + blank(s) + "W..." is what its row looks like in a
+            # block format; in FASTA the words may stand in a residue line): what format a file has is decided by how it BEGINS (8e76171)
+            j_ = rng.randrange(len(recs))
+            lead = ("W" if kind == "protein" else "") + recs[j_][1]
+            recs[j_] = (rng.choice(["CLUSTAL", "MSF:", "x|CLUSTAL"]), lead)
+            if j_ == 0 and rng.random() < 0.7:
+                recs[0], recs[-1] = recs[-1], recs[0]
+            ctx.count("signature_word_names")
         t = rng.choice([3, 4, 5]) if kind == "protein" else rng.choice([0, 1, 2, 5])
         t = gen.fit_type(t, kind, recs)
         fmt = rng.choice(["fasta", "clu", "msf"])
